@@ -75,7 +75,6 @@ func init() {
 			"h_raw_records_compared":         200,
 			"h_bodies_closed":                200,
 			"h_inflight_at_close":            100,
-			"h_drained_by_close":             20,
 		},
 		Exhaustive: func(e vt.Env) bool { return false },
 		Cases:      c19cases,
